@@ -199,6 +199,11 @@ impl<'a, M: Model> Harness for X2Harness<'a, M> {
         for p in &t.panics {
             vios.push((format!("{}.panic", self.prop), p.lines().next().unwrap_or("").chars().take(80).collect(), format!("panic: {}", p.lines().next().unwrap_or(""))));
         }
+        // lock-order monitor (hook H4): this execution's thread took h2's two mutexes out of rank order
+        let inv = h2::verif::lock_order::take_local_inversions();
+        if inv > 0 {
+            vios.push((format!("{}.lock-order", self.prop), "inversion".into(), format!("{} acquisition(s) of h2's internal mutexes out of order (stream state before send buffer, neither twice): two threads doing this can deadlock", inv)));
+        }
         let (trace, diverged) = {
             let s = t.sh.lock().unwrap();
             (s.chooser.trace.clone(), s.chooser.diverged.clone())
